@@ -37,7 +37,8 @@ TRUSTED_BASE = [
 ]
 ASSUMPTIONS = [
     "every writing entry point funnels through Output._may_write: checked exhaustively by the correspondence table, not proved",
-    "sections created from an output do not inherit its quiet/verbosity (stated per output object)",
+    "the statement is read per output object, against the quiet/verbosity THAT object reports (is_quiet(), verbosity): "
+    "a section taken from an output whose settings were changed before or after is gated by what the section reports",
 ]
 PARALLEL = False
 BATCH = 100000
@@ -53,7 +54,9 @@ def _entry_points():
     eps = []
     # "section2": the written section is the NEWER of two sections of one output and an OLDER one is written
     # to afterwards (a redraw re-emits recorded content: gated text must not have been recorded)
-    for cls, kinds in ((IO, ["io"]), (Output, ["output", "error_output"]), (SectionOutput, ["section", "section2"])):
+    # "section_of" / "section_after": quiet and verbosity are set on the OUTPUT the section is taken from, before /
+    # after the section is created, and never on the section: the gate follows what the section itself reports
+    for cls, kinds in ((IO, ["io"]), (Output, ["output", "error_output"]), (SectionOutput, ["section", "section2", "section_of", "section_after"])):
         for name, fn in inspect.getmembers(cls, predicate=inspect.isfunction):
             if name.startswith("_"):
                 continue
@@ -87,9 +90,11 @@ def _make(case):
     return io
 
 
-def run_impl(case):
+def _target(case):
+    """the object written to, with the case's settings applied the way its kind says"""
     io = _make(case)
     kind = case["kind"]
+    older = None
     if kind == "io":
         target = io
         io.set_quiet(case["quiet"])
@@ -101,12 +106,33 @@ def run_impl(case):
         target.set_quiet(case["quiet"])
         target.set_verbosity(case["verbosity"])
         fetch = io.fetch_output if kind == "output" else io.fetch_error
+    elif kind == "section_of":
+        io.output.set_quiet(case["quiet"])
+        io.output.set_verbosity(case["verbosity"])
+        target = io.output.section()
+        fetch = io.fetch_output
+    elif kind == "section_after":
+        target = io.output.section()
+        io.output.set_quiet(case["quiet"])
+        io.output.set_verbosity(case["verbosity"])
+        fetch = io.fetch_output
     else:
         older = io.output.section() if kind == "section2" else None
         target = io.output.section()
         target.set_quiet(case["quiet"])
         target.set_verbosity(case["verbosity"])
         fetch = io.fetch_output
+    return io, target, older, fetch
+
+
+def _reported(target):
+    """the settings the object itself reports: the statement is about these"""
+    return [bool(target.is_quiet()), int(target.verbosity)]
+
+
+def run_impl(case):
+    io, target, older, fetch = _target(case)
+    kind = case["kind"]
     fn = getattr(target, case["method"])
     fetch()
     if case["has_flags"]:
@@ -114,16 +140,18 @@ def run_impl(case):
     else:
         fn("payload")
     out = fetch()
+    rep = _reported(target)
     if kind == "section2":
         # anything that reaches the stream later counts as well
         older.write_line("later")
         out += fetch()
-        return {"wrote": "payload" in out, "contains_payload": "payload" in out}
-    return {"wrote": bool(out), "contains_payload": "payload" in out}
+        return {"wrote": "payload" in out, "contains_payload": "payload" in out, "reported": rep}
+    return {"wrote": bool(out), "contains_payload": "payload" in out, "reported": rep}
 
 
 def model_requests(case):
-    return [{"m": "c10.gate", "quiet": case["quiet"], "verbosity": case["verbosity"], "flags": case["flags"]}]
+    q, v = _reported(_target(case)[1])
+    return [{"m": "c10.gate", "quiet": q, "verbosity": v, "flags": case["flags"]}]
 
 
 def model_obs(case, answers):
@@ -144,10 +172,14 @@ def _lowest(flags):
 
 def oracle(case, obs):
     """the statement itself: text reaches the stream iff not quiet and verbosity >= lowest requested level"""
-    want = (not case["quiet"]) and case["verbosity"] >= _lowest(case["flags"])
+    quiet, verbosity = obs["reported"]
+    if case["kind"] not in ("section_of", "section_after") and [quiet, verbosity] != [case["quiet"], case["verbosity"]]:
+        return "%s reports quiet=%s verbosity=%s after set_quiet(%s), set_verbosity(%s)" % (
+            case["kind"], quiet, verbosity, case["quiet"], case["verbosity"])
+    want = (not quiet) and verbosity >= _lowest(case["flags"])
     if obs["wrote"] != want:
-        return "%s.%s(flags=%r) with quiet=%s verbosity=%s: wrote=%s, required=%s" % (
-            case["kind"], case["method"], case["flags"], case["quiet"], case["verbosity"], obs["wrote"], want)
+        return "%s.%s(flags=%r) on an object reporting quiet=%s verbosity=%s: wrote=%s, required=%s" % (
+            case["kind"], case["method"], case["flags"], quiet, verbosity, obs["wrote"], want)
     if obs["wrote"] and not obs["contains_payload"]:
         return "bytes were written but not the text"
     return None
